@@ -30,22 +30,35 @@ var decoderNames = []string{
 	"fileformats.STLReader",
 	"model2d.DecodeCSV",
 	"fileformats.SegmentCSVReader",
+	// the streaming readers called again after they returned an error (a caller
+	// that retries, or skips a bad record): still data or an error, never a panic
+	"fileformats.PLYReader[calls-after-error]",
+	"fileformats.OFFReader[calls-after-error]",
+	"fileformats.STLReader[calls-after-error]",
+	"fileformats.SegmentCSVReader[calls-after-error]",
 }
+
+const decRetryBase = 9
+
+// retryOf maps a streaming decoder to its calls-after-error variant.
+var retryOf = map[int]int{3: 9, 5: 10, 6: 11, 8: 12}
 
 // reader fault modes
 const (
 	modePlain = iota
 	modeOneByte
 	modeErrAt
+	modeTransientAt // one injected error when the stream position reaches k, then the stream continues
 )
 
 var errInjected = errors.New("injected read error")
 
 type faultReader struct {
-	data []byte
-	pos  int
-	mode int
-	k    int
+	data  []byte
+	pos   int
+	mode  int
+	k     int
+	fired bool
 }
 
 func (f *faultReader) Read(p []byte) (int, error) {
@@ -53,6 +66,10 @@ func (f *faultReader) Read(p []byte) (int, error) {
 		return 0, nil
 	}
 	if f.mode == modeErrAt && f.pos >= f.k {
+		return 0, errInjected
+	}
+	if f.mode == modeTransientAt && !f.fired && f.pos >= f.k {
+		f.fired = true
 		return 0, errInjected
 	}
 	if f.pos >= len(f.data) {
@@ -65,7 +82,7 @@ func (f *faultReader) Read(p []byte) (int, error) {
 	if n > len(f.data)-f.pos {
 		n = len(f.data) - f.pos
 	}
-	if f.mode == modeErrAt && f.pos+n > f.k {
+	if (f.mode == modeErrAt || (f.mode == modeTransientAt && !f.fired)) && f.pos+n > f.k {
 		n = f.k - f.pos
 	}
 	copy(p, f.data[f.pos:f.pos+n])
@@ -81,6 +98,7 @@ type result struct {
 	Err        bool   `json:"err"`
 	Alloc      uint64 `json:"alloc"`
 	NoProgress bool   `json:"noprogress,omitempty"`
+	Retries    int    `json:"retries,omitempty"` // calls made after a call had returned an error
 }
 
 func runDecoder(dec, mode, k int, data []byte) (res result) {
@@ -109,6 +127,35 @@ func runDecoder(dec, mode, k int, data []byte) (res result) {
 		runtime.ReadMemStats(&ms1)
 		res.Alloc = ms1.TotalAlloc - ms0.TotalAlloc
 	}()
+	retry := dec >= decRetryBase
+	if retry {
+		dec = map[int]int{9: 3, 10: 5, 11: 6, 12: 8}[dec]
+	}
+	// drive calls next until io.EOF; without retry it stops at the first error, with
+	// retry it keeps calling (at most 64 errors).
+	drive := func(next func() error) {
+		errs := 0
+		for {
+			err := next()
+			if err == io.EOF {
+				return
+			}
+			if err != nil {
+				res.Err = true
+				errs++
+				if !retry || errs >= 64 {
+					return
+				}
+				res.Retries++
+				continue
+			}
+			res.Records++
+			if res.Records > limit {
+				res.NoProgress = true
+				return
+			}
+		}
+	}
 	switch dec {
 	case 0:
 		t, err := model3d.ReadSTL(rd)
@@ -125,18 +172,10 @@ func runDecoder(dec, mode, k int, data []byte) (res result) {
 			res.Err = true
 			return
 		}
-		for {
+		drive(func() error {
 			_, _, err := p.Read()
-			if err != nil {
-				res.Err = err != io.EOF
-				return
-			}
-			res.Records++
-			if res.Records > limit {
-				res.NoProgress = true
-				return
-			}
-		}
+			return err
+		})
 	case 4:
 		_, err := fileformats.NewPLYHeaderDecode(string(data))
 		res.Err = err != nil
@@ -146,36 +185,20 @@ func runDecoder(dec, mode, k int, data []byte) (res result) {
 			res.Err = true
 			return
 		}
-		for {
+		drive(func() error {
 			_, err := o.ReadFace()
-			if err != nil {
-				res.Err = err != io.EOF
-				return
-			}
-			res.Records++
-			if res.Records > limit {
-				res.NoProgress = true
-				return
-			}
-		}
+			return err
+		})
 	case 6:
 		s, err := fileformats.NewSTLReader(rd)
 		if err != nil {
 			res.Err = true
 			return
 		}
-		for {
+		drive(func() error {
 			_, _, err := s.ReadTriangle()
-			if err != nil {
-				res.Err = err != io.EOF
-				return
-			}
-			res.Records++
-			if res.Records > limit {
-				res.NoProgress = true
-				return
-			}
-		}
+			return err
+		})
 	case 7:
 		if mode != modePlain {
 			b, _ := io.ReadAll(rd)
@@ -185,18 +208,10 @@ func runDecoder(dec, mode, k int, data []byte) (res result) {
 		res.Records, res.Err = len(s), err != nil
 	case 8:
 		c := fileformats.NewSegmentCSVReader(rd)
-		for {
+		drive(func() error {
 			_, err := c.Read()
-			if err != nil {
-				res.Err = err != io.EOF
-				return
-			}
-			res.Records++
-			if res.Records > limit {
-				res.NoProgress = true
-				return
-			}
-		}
+			return err
+		})
 	}
 	return
 }
